@@ -119,7 +119,7 @@ CLAIMED = {
         technique="Lean 4: decision-logic theorems of the attribute macro (rejection table, name expression, wrapper choice, unescape_format_string); wrapper semantics by C10/C13; translation-style differential: annotated/plain twin functions compiled with the real macro and compared on results, side effects, panics, recorded spans; Lean decision model compared with the real macro's observable decisions",
         text="Kernel-checked: C15_rejections, C15_name, C15_wrapper, C15_unescape_plain, C15_unescape_format_unchanged, C15_unescape_examples; the run-time behaviour of the three wrappers is C10_frame (LocalSpan guard), C13 (in_span / enter_on_poll). "
              "Tie: twins over sync / async (with and without a Pending poll) / generic / lifetime / &self,&mut self,self methods / async methods / async-trait impls × attribute forms × bodies (plain, early return, `?`, panic) are generated from the seed, compiled against /repo's macro and executed with and without a local parent: equal return values, side-effect logs and unwind payloads; exactly one span (one per poll with enter_on_poll) with the configured/short/func_path!() name, the configured properties with format strings evaluated, parent = the caller's local parent; nothing without a local parent.",
-        note="Partial by nature: that the expansion equals 'wrapper around the unchanged body' for all Rust functions is validated on generated twins, not proved (no Lean semantics of Rust). Rejections of malformed attributes are covered by the repository's trybuild ui test (baseline) and by C15_rejections on the model.",
+        note="Defect D15 (statements before a Box::pin(async move {..}) tail were dropped by the macro) fixed in /repo (e541291), witness twin boxed_plain/boxed_traced; annotated functions called during thread-local teardown are covered by the tls_teardown twins. Partial by nature: that the expansion equals 'wrapper around the unchanged body' for all Rust functions is validated on generated twins, not proved (no Lean semantics of Rust). Rejections of malformed attributes are covered by the repository's trybuild ui test (baseline) and by C15_rejections on the model.",
         design="§4 C15"),
     "C18": dict(
         technique="Lean 4: duration/begin formulas of the collector, strictly increasing logical clock, finish-after-begin, begin instants strictly increasing along a scope's queue, elapsed(); relational tie: every API call bracketed by monotonic and wall-clock readings, window checks on every delivered record",
